@@ -8,8 +8,14 @@ correspondence check).  The full statement of the property is, with `load` the p
 
     print (load (print J)) = print J      and      balance (load (print J)) F = balance J F.
 
-Its text half needs the parser model's print-then-parse lemmas (built for C08); what is proved here is the
-semantic core that makes the printed form a *normal form*:
+This file holds the semantic core that makes the printed form a *normal form* (below); the statement itself is proved
+in the sibling modules: the text half in `Properties/C09Text.lean` (`C09_text_journal_fixpoint`: for every printable journal
+the printed text loads back, through the parser model and the elaboration, to the directives `journal.Print` wrote, and
+printing them again gives the same bytes), the commands on one file in `Properties/C09Journal.lean` (`C09_print_idempotent`,
+`C09_file_reports_equal`: for EVERY input text), and the same for `Cmd.run`, the command model C14 compares with the
+binary, on any file system and include tree, in `Properties/C09Cmd.lean` (`C09_cmd_print_idempotent`,
+`C09_cmd_reports_equal`, `C09_cmd_verdict_equal`; `C09_elab_agrees` links the two elaboration models). Decimals:
+`Properties/C09Decimal.lean`. Here:
 
 * `C09_booking_normal_form` – `print` writes each booking from its debit-side posting as
   `other account quantity commodity`; rebuilding that booking yields exactly the same posting pair, for every
@@ -19,9 +25,10 @@ semantic core that makes the printed form a *normal form*:
 * `C09_targets_line` – the `@performance` line is printed iff targets are present (`nil` vs empty list
   are distinguished, as in the parser).
 
-The remaining clauses (the printed text parses; decimals and dates re-read to the same values; reports
-equal) are decided on every run by the monitors `print_output_accepted`, `print_fixpoint`, `reports_equal`
-on the real binary and by the byte-exact comparison of `knut print` with this model.
+The same clauses are also decided on every run on the REAL binary by the monitors `print_output_accepted`,
+`print_fixpoint`, `reports_equal` (instances of the theorems above on the implementation's output) and by the byte-exact
+comparison of `knut print` with this model on the wire-form journal (`print`) and on the input text itself, rejected
+texts included (`print_text`, stream `text`).
 -/
 namespace Knut.C09
 open Knut Knut.JournalPrinter
